@@ -17,7 +17,17 @@
      REJECT   reference rejects  <=>  the build of `const c = <expr>` fails with a scriggo.BuildError
      VALUE    reference accepts  =>   c == <reference literal> is true, the printed integer equals the
                                       reference integer, and c's default type is the reference's
-   The reason class of a rejection is recorded as drift only (diagnostic). *)
+   The reason class of a rejection is recorded as drift only (diagnostic).
+
+   Readings chosen (DESIGN Appendix C.5):
+   - "the same value" includes the constant's kind: an untyped constant's kind decides its default type and the
+     arithmetic of every expression it is used in ((1.0 << 3) / 16 is 0 in Go, 0.5 if the shift result stays a
+     float), so the default type observed through interface{} is judged ("type"); it is only observed when the
+     reference says the constant is representable in its default type.
+   - the observing program (c == literal, var v T = c, type switch) is valid Go whenever the reference accepts the
+     expression; if scriggo cannot build or run it the value is unusable ("value-unusable").
+   - limits: integer results beyond 512 bits are rejections (gc, go/types and scriggo share the limit); everything
+     else that depends on an implementation limit is "any" in Const.tla and skipped here. *)
 EXTENDS Const, TLC, Json
 
 Ref(r) == Eval(r.expr)
